@@ -5,6 +5,7 @@ import PandoraModel.Properties.C12KernelsSampled
 import PandoraModel.Properties.C12KernelsRiskSampled
 import PandoraModel.Properties.C12Names
 import PandoraModel.Properties.C12KernelsRegul
+import PandoraModel.Properties.C12KernelsGraphReg
 open Pandora.C12
 -- tie to the source
 #print axioms stems_from_source
@@ -95,3 +96,9 @@ open Pandora.C12
 -- compute_risk_and_sampled_risk regenerated = (pixelRisk, pixelSampledRisk) (Properties/C12KernelsRiskSampled.lean)
 #print axioms Pandora.C12Kernels.pixelRisk_eq_mean
 #print axioms Pandora.C12Kernels.computeRiskSampled_generated_eq
+-- the aggregation loop of graph_regularization regenerated = Confidence.graphRegularization (Properties/C12KernelsGraphReg.lean)
+#print axioms Pandora.C12KernelsRegul.agg_eq
+#print axioms Pandora.C12KernelsRegul.setSlice_eq
+#print axioms Pandora.C12KernelsRegul.graphRegularization_generated_eq
+#print axioms Pandora.C12KernelsRegul.intervalRegularization_all_generated
+#print axioms Pandora.C12KernelsRegul.quantile1_widens_generated
